@@ -10,4 +10,7 @@ python3 "$VERIF/gen/gen_registry.py" "$VERIF/harness" >/dev/null
 python3 "$VERIF/gen/gen_derive.py" "$VERIF/harness" >/dev/null
 cd "$VERIF/harness"
 cargo build --release --offline -p pscv 2>&1 | tail -3
+
+# warm the feature-matrix builds (C20) so that the first quick run is not dominated by them
+( cd "$VERIF/harness_digest" && env -u RUSTFLAGS cargo build --release --offline --no-default-features --features "std chain-error bit-vec bytes generic-array max-encoded-len derive" --target-dir "$VERIF/target/digest-default" 2>&1 | tail -1 ) || true
 echo "setup done"
